@@ -135,3 +135,46 @@ sample_covariance = cov_fn('sample_covariance', '(n - 1)', 'x@.len() as real - 1
 
 UNITS.append(Unit('C08_covariance', 'C08', [covariance, sample_covariance], use=[mean], spec=SPEC + COV_SPEC, nra=NRA + NRA_COV, preludes=PRE, broadcast=BC, level='L1',
                   notes='population and sample covariance (two-pass) equal (sum xy - sum x sum y / n) / d over the reals'))
+
+# ---------------------------------------------------------------- order statistics: min / max / argmin / argmax (rule R32: fold -> its defining loop)
+O = 'statistics::order::'
+ORDER_SPEC = r'''
+pub open spec fn all_finite(d: Seq<f64>) -> bool { forall|k: int| 0 <= k < d.len() ==> finite(#[trigger] d[k]) }
+'''
+omax = Fn(O + 'max', ret='r', level='L1', requires=['C08.max.finite:: all_finite(data@)'],
+          ensures=['C08.max.empty:: data@.len() == 0 ==> f_is_nan(r)',
+                   'C08.max.attained:: data@.len() > 0 ==> exists|k: int| 0 <= k < data@.len() && r == #[trigger] data@[k]',
+                   'C08.max.bound:: forall|k: int| 0 <= k < data@.len() ==> rv(#[trigger] data@[k]) <= rv(r)'],
+          loops={1: {'invariant': ['all_finite(data@)', 'k_ == 0 ==> f_is_nan(acc)',
+                                   'C08.max.prefix.attained:: k_ > 0 ==> exists|q: int| 0 <= q < k_ && acc == #[trigger] data@[q]',
+                                   'C08.max.prefix.bound:: forall|q: int| 0 <= q < k_ ==> rv(#[trigger] data@[q]) <= rv(acc)'],
+                     'body_start': 'assert(finite(data@[k_ as int]));'}})
+omin = Fn(O + 'min', ret='r', level='L1', requires=['C08.min.finite:: all_finite(data@)'],
+          ensures=['C08.min.empty:: data@.len() == 0 ==> f_is_nan(r)',
+                   'C08.min.attained:: data@.len() > 0 ==> exists|k: int| 0 <= k < data@.len() && r == #[trigger] data@[k]',
+                   'C08.min.bound:: forall|k: int| 0 <= k < data@.len() ==> rv(#[trigger] data@[k]) >= rv(r)'],
+          loops={1: {'invariant': ['all_finite(data@)', 'k_ == 0 ==> f_is_nan(acc)',
+                                   'C08.min.prefix.attained:: k_ > 0 ==> exists|q: int| 0 <= q < k_ && acc == #[trigger] data@[q]',
+                                   'C08.min.prefix.bound:: forall|q: int| 0 <= q < k_ ==> rv(#[trigger] data@[q]) >= rv(acc)'],
+                     'body_start': 'assert(finite(data@[k_ as int]));'}})
+oargmax = Fn(O + 'argmax', ret='r', level='L1', requires=['C08.argmax.finite:: all_finite(data@)'],
+             ensures=['C08.argmax.empty:: data@.len() == 0 ==> r == 0',
+                      'C08.argmax.index:: data@.len() > 0 ==> r < data@.len()',
+                      'C08.argmax.max:: forall|k: int| 0 <= k < data@.len() ==> rv(#[trigger] data@[k]) <= rv(data@[r as int])',
+                      'C08.argmax.first:: forall|k: int| 0 <= k < r ==> rv(#[trigger] data@[k]) < rv(data@[r as int])'],
+             loops={1: {'invariant': ['all_finite(data@)', 'acc.0 <= i', '(acc.0 < i && acc.1 == data@[acc.0 as int]) || (acc.0 == 0 && acc.1 == f_minval())',
+                                      'C08.argmax.prefix.max:: forall|q: int| 0 <= q < i ==> rv(#[trigger] data@[q]) <= rv(acc.1)',
+                                      'C08.argmax.prefix.first:: forall|q: int| 0 <= q < acc.0 ==> rv(#[trigger] data@[q]) < rv(acc.1)'],
+                        'body_start': 'assert(finite(data@[i as int]));'}})
+oargmin = Fn(O + 'argmin', ret='r', level='L1', requires=['C08.argmin.finite:: all_finite(data@)'],
+             ensures=['C08.argmin.empty:: data@.len() == 0 ==> r == 0',
+                      'C08.argmin.index:: data@.len() > 0 ==> r < data@.len()',
+                      'C08.argmin.min:: forall|k: int| 0 <= k < data@.len() ==> rv(#[trigger] data@[k]) >= rv(data@[r as int])',
+                      'C08.argmin.first:: forall|k: int| 0 <= k < r ==> rv(#[trigger] data@[k]) > rv(data@[r as int])'],
+             loops={1: {'invariant': ['all_finite(data@)', 'acc.0 <= i', '(acc.0 < i && acc.1 == data@[acc.0 as int]) || (acc.0 == 0 && acc.1 == f_maxval())',
+                                      'C08.argmin.prefix.min:: forall|q: int| 0 <= q < i ==> rv(#[trigger] data@[q]) >= rv(acc.1)',
+                                      'C08.argmin.prefix.first:: forall|q: int| 0 <= q < acc.0 ==> rv(#[trigger] data@[q]) > rv(acc.1)'],
+                        'body_start': 'assert(finite(data@[i as int]));'}})
+UNITS.append(Unit('C08_order', 'C08', [omin, omax, oargmin, oargmax], spec=ORDER_SPEC, preludes=PRE, broadcast=BC + ('l1_minmax',), level='L1',
+                  notes='min / max return an attained bound of the data (NaN on empty input), argmin / argmax the first index attaining it, for every finite data set; '
+                        'the folds are verified as their defining loops (rule R32)'))
